@@ -1,9 +1,9 @@
 """Precise asmx harnesses for the key-preparation helpers in assembly: AES key expansion (all keys, FIPS-197 over an uninterpreted
 SubWord) for every variant entry point, and CMAC sub-key generation (exact GF(2^128) doubling).  Serves C11, C07, C13, C08."""
 import os, time
-from z3 import (BitVec, BitVecVal, And, Or, Not, If, Extract, Concat, ZeroExt, simplify, sat, unsat, is_bv_value, LShR)
+from z3 import (BitVec, BitVecVal, And, Or, Not, If, Extract, Concat, ZeroExt, simplify, sat, unsat, is_bv_value, LShR, is_false)
 from vlib.core import *
-from vlib.asmx.engine import (Engine, State, Region, bv, simp, conc, Unsupported, BoundExceeded, AESENC, AESENCLAST, AESIMC, SBOX32, RET_SENTINEL)
+from vlib.asmx.engine import (Engine, State, Region, bv, simp, conc, Unsupported, BoundExceeded, AESENC, AESENCLAST, AESIMC, SBOX32, RET_SENTINEL, ackermannize, xor_normal_form, NotLinear)
 from vlib.asmx.decode import Obj
 
 KEY, ENC, DEC, STK = 0x300000, 0x340000, 0x380000, 0x700000
@@ -82,7 +82,7 @@ def run_keyexp(ctx, bits, variant, enc_only=False, safe_data=True, sabotage=Fals
     re_ = Region('enc', ENC, 16 * (nr + 1))
     rdd = Region('dec', DEC, 16 * (nr + 1))
     st, rsp0 = setup(obj, [rk, re_] + ([] if enc_only else [rdd]), [KEY, ENC] + ([] if enc_only else [DEC]))
-    E = Engine(obj, mode='precise', max_steps=20000, loop_bound=20, solver_timeout_ms=900000)
+    E = Engine(obj, mode='precise', max_steps=20000, loop_bound=20, solver_timeout_ms=300000)
     name = sym
     obl, viol = [], []
     t0 = time.time()
@@ -96,19 +96,32 @@ def run_keyexp(ctx, bits, variant, enc_only=False, safe_data=True, sabotage=Fals
         ek[3] = simplify(ek[3] ^ 1)
     for f in fin:
         R = {r.name: r for r in f.regions}
-        bad = [rd(R['enc'], 16 * r, 16) != ek[r] for r in range(nr + 1)]
+        pairs = [(rd(R['enc'], 16 * r, 16), ek[r]) for r in range(nr + 1)]
         if not enc_only:
-            bad.append(rd(R['dec'], 0, 16) != ek[nr])
-            bad.append(rd(R['dec'], 16 * nr, 16) != ek[0])
+            pairs.append((rd(R['dec'], 0, 16), ek[nr]))
+            pairs.append((rd(R['dec'], 16 * nr, 16), ek[0]))
             for r in range(1, nr):
-                bad.append(rd(R['dec'], 16 * r, 16) != AESIMC(ek[nr - r]))
-        # one small query per round key (a single disjunction over all of them is needlessly hard for the UF reasoning)
+                pairs.append((rd(R['dec'], 16 * r, 16), AESIMC(ek[nr - r])))
+        # Ackermann abstraction of SubWord/InvMixColumns: what remains is XOR/shift algebra, decided instantly
+        # exact XOR/UF normal form first (decides the whole obligation without the solver when it applies)
+        try:
+            nf = xor_normal_form([x for p in pairs for x in p])
+            if all(nf[2 * i] == nf[2 * i + 1] for i in range(len(pairs))):
+                pairs = []
+        except (NotLinear, RecursionError):
+            pass
+        flat = ackermannize([x for p in pairs for x in p])
         verdict = unsat
-        for b in bad:
-            b = simplify(b)
-            if str(b) == 'False':
+        for i, (g, e_) in enumerate(pairs):
+            ag, ae = flat[2 * i], flat[2 * i + 1]
+            b = simplify(ag != ae)
+            if is_false(b):
                 continue
             r_, m = E.check(f, b)
+            if r_ == unsat:
+                continue
+            # abstraction inconclusive: exact query
+            r_, m = E.check(f, g != e_)
             if r_ == sat:
                 verdict = sat
                 break
@@ -152,7 +165,7 @@ def run_cmac_subkey(ctx, bits, variant):
     k1 = Region('k1', ENC, 16)
     k2 = Region('k2', DEC, 16)
     st, rsp0 = setup(obj, [rk, k1, k2], [KEY, ENC, DEC])
-    E = Engine(obj, mode='precise', max_steps=20000, loop_bound=20, solver_timeout_ms=900000)
+    E = Engine(obj, mode='precise', max_steps=20000, loop_bound=20, solver_timeout_ms=300000)
     obl, viol = [], []
     t0 = time.time()
     try:
